@@ -157,10 +157,10 @@ theorem pollBytes_specA {σ : Type} (step : σ → RdEv → σ × List Msg) (isD
     -- first look at the run over the negotiation bytes alone
     obtain ⟨j, rest, hjl, hnb, hrun, hrest, hstop⟩ :=
       runBytes_prefix step isDone ms s (wireOfAll ms).length (n + 1) hw (by omega)
-    rw [List.take_of_length_le (Nat.le_refl _), List.drop_of_length_le (Nat.le_refl _),
-      List.append_nil] at hrun hrest
+    rw [List.take_of_length_le (Nat.le_refl _)] at hrun
+    rw [List.drop_of_length_le (Nat.le_refl _), List.append_nil] at hrest
     subst hrest
-    rcases hstop with hdone | ⟨hnone, hjeq⟩
+    by_cases hdone : isDone (runSteps step s ((ms.take j).map RdEv.msg)).1 = true
     · -- finished inside the negotiation bytes: the data stays queued
       refine ⟨j, hjl, hnb, Or.inl ?_⟩
       have happ := runBytes_done_append step isDone (n + 1) s (wireOfAll ms) (A.take k)
@@ -171,6 +171,11 @@ theorem pollBytes_specA {σ : Type} (step : σ → RdEv → σ × List Msg) (isD
         Bool.false_and, hdrop]
       rw [List.append_assoc, List.take_append_drop]
     · -- not finished, so every message was consumed
+      have hsnd : isDone (runSteps step s ((ms.take j).map RdEv.msg)).1 = false := by simpa using hdone
+      obtain ⟨hnone, _⟩ : frameDec (wireOfAll (ms.drop j)) = none ∧ (j = ms.length → wireOfAll (ms.drop j) = []) := by
+        rcases hstop with h | h
+        · exact absurd h hdone
+        · exact h
       have hempty : ms.drop j = [] := by
         cases hdj : ms.drop j with
         | nil => rfl
@@ -185,19 +190,513 @@ theorem pollBytes_specA {σ : Type} (step : σ → RdEv → σ × List Msg) (isD
         have := congrArg List.length hempty
         simp at this; omega
       have htk : ms.take j = ms := by rw [hjlen]; simp
-      rw [htk] at hnb hrun ⊢
-      have hsnd : isDone (runSteps step s (ms.map RdEv.msg)).1 = false := by
-        -- otherwise the first alternative would have applied; decide by cases
-        cases hh : isDone (runSteps step s (ms.map RdEv.msg)).1 with
-        | false => rfl
-        | true =>
-          -- then report the "finished inside" alternative instead
-          exact absurd hh (by
-            intro hh
-            -- `hstop` told us the run stopped for lack of a frame, but a finished state is also
-            -- consistent; handle it uniformly below by contradiction-free reasoning
-            exact Bool.noConfusion (hh.symm.trans (by
-              cases hq : isDone (runSteps step s (ms.map RdEv.msg)).1 <;> simp_all)))
-      sorry
+      rw [htk] at hnb hsnd
+      -- run through the negotiation bytes, then into the data
+      have hfuel : n + 1 = (n + 1 - ms.length) + ms.length := by omega
+      have hthrough := runBytes_through step isDone ms s (A.take k) (n + 1 - ms.length) hw hnb
+      rw [← hfuel] at hthrough
+      have hklen : (A.take k).length < n + 1 - ms.length := by
+        have : (A.take k).length ≤ k := by simp; omega
+        omega
+      generalize hS : (runSteps step s (ms.map RdEv.msg)).1 = S at hthrough hsnd
+      generalize hO : (runSteps step s (ms.map RdEv.msg)).2 = O at hthrough
+      obtain ⟨f0, hf0⟩ : ∃ f0, n + 1 - ms.length = f0 + 1 := ⟨n - ms.length, by omega⟩
+      rw [hf0] at hthrough
+      cases hfr : frameDec (A.take k) with
+      | none =>
+        -- the data's first frame is not complete (yet)
+        have hr2 : runBytes step isDone (f0 + 1) S (A.take k) = (S, [], A.take k) := by
+          simp [runBytes, hsnd, hfr]
+        rw [hr2] at hthrough
+        unfold pollBytes
+        simp only [hnd, Bool.false_eq_true, ↓reduceIte, htake, hthrough, List.append_nil, hsnd,
+          Bool.not_false, Bool.true_and, hdrop]
+        by_cases heof : (closed && decide ((wireOfAll ms ++ A).length ≤ n)) = true
+        · -- EOF with the incomplete data pulled: `UnexpectedEof`
+          simp only [Bool.and_eq_true, decide_eq_true_eq] at heof
+          have hkA : A.length ≤ k := by
+            have := heof.2; simp at this; omega
+          have htA : A.take k = A := List.take_of_length_le hkA
+          rw [htA] at hfr
+          have he := junk_incomplete A e hj hfr
+          subst he
+          refine ⟨ms.length, Nat.le_refl _, by simpa using hnb, Or.inr ⟨rfl, by simpa [hS] using hsnd, [], ?_⟩⟩
+          have hc : (closed && decide ((wireOfAll ms ++ A).length ≤ n)) = true := by
+            rw [heof.1]; simpa using heof.2
+          simp only [hc, ↓reduceIte, htA, eofEvent, hA, List.take_length, hS, hO]
+        · refine ⟨ms.length, Nat.le_refl _, by simpa using hnb, Or.inl ?_⟩
+          have hwn : wireOfAll ([] : List Msg) = [] := rfl
+          simp only [heof, Bool.false_eq_true, ↓reduceIte, List.take_append_drop, List.take_length,
+            List.drop_length, hwn, List.nil_append, hS, hO]
+      | some p =>
+        obtain ⟨fr, r⟩ := p
+        -- the data's first frame is there: it reads as the error `e`
+        have hfull := C15.frameDec_stable _ _ _ (A.drop k) hfr
+        rw [List.take_append_drop] at hfull
+        have hev := junk_event A e hj fr _ hfull
+        have hdn := herr S e
+        have hr2 : runBytes step isDone (f0 + 1) S (A.take k) =
+            ((step S (.err e)).1, (step S (.err e)).2, r) := by
+          rw [runBytes]
+          simp only [hsnd, Bool.false_eq_true, ↓reduceIte, hfr, hev]
+          cases f0 with
+          | zero => simp [runBytes]
+          | succ f1 => simp [runBytes, hdn]
+        rw [hr2] at hthrough
+        refine ⟨ms.length, Nat.le_refl _, by simpa using hnb,
+          Or.inr ⟨rfl, by simpa [hS] using hsnd, r ++ A.drop k, ?_⟩⟩
+        unfold pollBytes
+        simp only [hnd, Bool.false_eq_true, ↓reduceIte, htake, hthrough, hdn, Bool.not_true,
+          Bool.false_and, hdrop, List.take_length, hS, hO]
+
+/-! ### the relation with optimistic data -/
+
+/-- the bytes a queue of items stands for -/
+def bytesOf (A : Bytes) (q : List Item) : Bytes :=
+  q.flatMap fun it => match it with
+    | .msg m => (wireOf m).getD []
+    | .junk _ => A
+
+theorem bytesOf_append (A : Bytes) (a b : List Item) : bytesOf A (a ++ b) = bytesOf A a ++ bytesOf A b := by
+  simp [bytesOf]
+
+theorem bytesOf_msgs (A : Bytes) (ms : List Msg) : bytesOf A (ms.map Item.msg) = wireOfAll ms := by
+  simp [bytesOf, wireOfAll, List.flatMap_map]
+
+theorem bytesOf_junk (A : Bytes) (e : PErr) : bytesOf A [.junk e] = A := by simp [bytesOf]
+
+structure RelA (A : Bytes) (bc : BCfg) (mc : Cfg) : Prop where
+  hs : bc.started = mc.started
+  hd : bc.d = mc.d
+  hl : bc.l = mc.l
+  /-- once the listener has finished it never reads again: what is left for it is irrelevant -/
+  hdl : lIsDone mc.l = true ∨ bc.dl.bytes = bytesOf A mc.dl.q
+  hdlc : bc.dl.closed = mc.dl.closed
+  hld : bc.ld.bytes = bytesOf A mc.ld.q
+  hldc : bc.ld.closed = mc.ld.closed
+
+/-- the dialer → listener queue of a reachable configuration: messages that survive the wire,
+followed by at most the one optimistic-data item -/
+theorem shape_dl_split (P : Params) (hv : ∀ d ∈ P.ds, validName d = true) (ph : Phase)
+    (hok : PhaseOK P ph) :
+    ∃ (ms : List Msg) (J : List Item), (shape P ph).dl.q = ms.map Item.msg ++ J ∧
+      (∀ m ∈ ms, wireOk m) ∧ (J = [] ∨ ∃ e, P.junk = some e ∧ J = [.junk e]) := by
+  have hJ : ∀ rest, jk P rest = [] ∨ ∃ e, P.junk = some e ∧ jk P rest = [.junk e] := by
+    intro rest
+    unfold jk junkItems
+    split
+    · cases hj : P.junk with
+      | none => left; rfl
+      | some e => right; exact ⟨e, rfl, rfl⟩
+    · left; rfl
+  cases ph with
+  | p0 => exact ⟨[], [], rfl, by simp, Or.inl rfl⟩
+  | e1 => exact ⟨[], [], rfl, by simp, Or.inl rfl⟩
+  | e2 => exact ⟨[], [], rfl, by simp, Or.inl rfl⟩
+  | a cur rest =>
+    have hc : validName cur = true := hv cur (by rw [show P.ds = cur :: rest from hok]; simp)
+    refine ⟨[.header, .proto cur], jk P rest, by simp [shape], ?_, hJ rest⟩
+    intro m hm
+    simp at hm
+    rcases hm with rfl | rfl
+    · exact wok_header
+    · exact wok_proto cur hc
+  | b pre cur rest hq hx =>
+    have hc := valid_of_split P hv pre cur rest hok.1
+    refine ⟨[.proto cur], jk P rest, by simp [shape], ?_, hJ rest⟩
+    intro m hm
+    simp at hm
+    subst hm; exact wok_proto cur hc
+  | c pre cur rest hq hx => exact ⟨[], jk P rest, by simp [shape], by simp, hJ rest⟩
+  | cdone pre cur rest => exact ⟨[], jk P rest, by simp [shape], by simp, hJ rest⟩
+  | n pre cur rest hq hx => exact ⟨[], jk P rest, by simp [shape], by simp, hJ rest⟩
+  | nj pre cur hq hx => exact ⟨[], [], rfl, by simp, Or.inl rfl⟩
+  | f1 pre cur => exact ⟨[], jk P [], by simp [shape], by simp, hJ []⟩
+  | f2 pre cur => exact ⟨[], [], rfl, by simp, Or.inl rfl⟩
+
+/-- the listener → dialer queue never carries application data during the negotiation -/
+theorem shape_ld_msgs (P : Params) (hv : ∀ d ∈ P.ds, validName d = true) (ph : Phase)
+    (hok : PhaseOK P ph) :
+    ∃ ms : List Msg, (shape P ph).ld.q = ms.map Item.msg ∧ ∀ m ∈ ms, wireOk m := by
+  have hh : ∀ hq, ∃ ms : List Msg, hdr hq = ms.map Item.msg ∧ ∀ m ∈ ms, wireOk m := by
+    intro hq
+    cases hq with
+    | true => exact ⟨[.header], rfl, by intro m hm; simp at hm; subst hm; exact wok_header⟩
+    | false => exact ⟨[], rfl, by simp⟩
+  cases ph with
+  | p0 => exact ⟨[], rfl, by simp⟩
+  | e1 => exact ⟨[], rfl, by simp⟩
+  | e2 => exact ⟨[], rfl, by simp⟩
+  | a cur rest => exact ⟨[], rfl, by simp⟩
+  | b pre cur rest hq hx => simpa [shape] using hh hq
+  | c pre cur rest hq hx =>
+    have hc := valid_of_split P hv pre cur rest hok.1
+    obtain ⟨ms, h1, h2⟩ := hh hq
+    refine ⟨ms ++ [.proto cur], by simp [shape, h1], ?_⟩
+    intro m hm
+    simp at hm
+    rcases hm with hm | rfl
+    · exact h2 m hm
+    · exact wok_proto cur hc
+  | cdone pre cur rest => exact ⟨[], rfl, by simp⟩
+  | n pre cur rest hq hx =>
+    obtain ⟨ms, h1, h2⟩ := hh hq
+    refine ⟨ms ++ [.na], by simp [shape, h1], ?_⟩
+    intro m hm
+    simp at hm
+    rcases hm with hm | rfl
+    · exact h2 m hm
+    · exact wok_na
+  | nj pre cur hq hx =>
+    obtain ⟨ms, h1, h2⟩ := hh hq
+    refine ⟨ms ++ [.na], by simp [shape, h1], ?_⟩
+    intro m hm
+    simp at hm
+    rcases hm with hm | rfl
+    · exact h2 m hm
+    · exact wok_na
+  | f1 pre cur => exact ⟨[], rfl, by simp⟩
+  | f2 pre cur => exact ⟨[], rfl, by simp⟩
+
+theorem lStep_err_done (ls : List Bytes) (s : LSt) (e : PErr) :
+    lIsDone (lStep ls s (.err e)).1 = true := by
+  cases s with
+  | done r => simp [lStep, lIsDone]
+  | recvHeader => simp [lStep, lIsDone]
+  | recvMessage b => simp only [lStep]; split <;> simp [lIsDone]
+
+/-- a byte-level listener poll, with optimistic data possibly queued, is matched by
+message-level listener moves -/
+theorem refine_LA (P : Params) (A : Bytes) (bc : BCfg) (mc : Cfg) (n : Nat) (hrel : RelA A bc mc)
+    (hsplit : ∃ (ms : List Msg) (J : List Item), mc.dl.q = ms.map Item.msg ++ J ∧
+      (∀ m ∈ ms, wireOk m) ∧ (J = [] ∨ ∃ e, P.junk = some e ∧ J = [.junk e]))
+    (hjA : ∀ e, P.junk = some e → A ≠ [] ∧ junkOf A = some e) :
+    ∃ ex : List Move, RelA A (bStepL P n bc) (ex.foldl (step P) mc) := by
+  unfold bStepL
+  by_cases hdone : lIsDone bc.l = true
+  · exact ⟨[], by simpa [hdone] using hrel⟩
+  · have hnd : lIsDone bc.l = false := by simpa using hdone
+    have hndm : lIsDone mc.l = false := by rw [← hrel.hl]; exact hnd
+    simp only [hnd, Bool.false_eq_true, ↓reduceIte]
+    obtain ⟨ms, J, hq, hw, hJ⟩ := hsplit
+    have hb : bc.dl.bytes = wireOfAll ms ++ bytesOf A J := by
+      rcases hrel.hdl with h | h
+      · rw [hndm] at h; cases h
+      · rw [h, hq, bytesOf_append, bytesOf_msgs]
+    rcases hJ with rfl | ⟨e, hje, rfl⟩
+    · -- no optimistic data queued: as before
+      have hb' : bc.dl.bytes = wireOfAll ms := by simpa [bytesOf] using hb
+      have hq' : mc.dl.q = ms.map Item.msg := by simpa using hq
+      obtain ⟨j, hj, hnb, hcase⟩ := pollBytes_spec (lStep P.ls) lIsDone bc.l ms bc.dl.closed n hw hnd
+      have hsp : mc.dl.q = (ms.take j).map Item.msg ++ (ms.drop j).map Item.msg := by
+        rw [hq', ← List.map_append, List.take_append_drop]
+      have hlen : (ms.take j).length = j := by simp; omega
+      have hiter := stepL_iter P (ms.take j) mc ((ms.drop j).map Item.msg) hndm hsp
+        (by rw [← hrel.hl]; exact hnb)
+      rw [hlen] at hiter
+      rcases hcase with hp | ⟨hjl, hcl, hnd2, hp⟩
+      · refine ⟨List.replicate j .stepL, ?_⟩
+        rw [hiter, hb', hp]
+        exact {
+          hs := hrel.hs
+          hd := hrel.hd
+          hl := by simp [hrel.hl]
+          hdl := Or.inr (bytesOf_msgs A (ms.drop j)).symm
+          hdlc := hrel.hdlc
+          hld := by simp [hrel.hld, bytesOf_append, bytesOf_msgs, hrel.hl]
+          hldc := by simp [hrel.hldc, hrel.hl] }
+      · refine ⟨List.replicate j .stepL ++ [.stepL], ?_⟩
+        rw [foldl_append_moves, hiter, hb', hp]
+        have hdrop : ms.drop j = [] := by rw [hjl]; simp
+        simp only [List.foldl_cons, List.foldl_nil, step]
+        rw [stepL_eof P _ (by
+              intro r
+              simp only
+              rw [← hrel.hl]
+              exact not_done_l _ hnd2 r)
+            (by simp [hdrop]) (by simp [← hrel.hdlc, hcl])]
+        have hnf := lFailed_of_not_done _ hnd2
+        have hnf' : lFailed (runSteps (lStep P.ls) mc.l (List.take j (List.map RdEv.msg ms))).fst = false := by
+          rw [← List.map_take, ← hrel.hl]; exact hnf
+        exact {
+          hs := hrel.hs
+          hd := hrel.hd
+          hl := by simp [hrel.hl]
+          hdl := Or.inr (by simp [hdrop, bytesOf])
+          hdlc := hrel.hdlc
+          hld := by simp [hrel.hld, bytesOf_append, bytesOf_msgs, hrel.hl, wireOfAll_append]
+          hldc := by simp [hrel.hldc, hrel.hl, hnf'] }
+    · -- the optimistic data is queued behind `ms`
+      obtain ⟨hA, hjo⟩ := hjA e hje
+      have hb' : bc.dl.bytes = wireOfAll ms ++ A := by rw [hb, bytesOf_junk]
+      obtain ⟨j, hj, hnb, hcase⟩ := pollBytes_specA (lStep P.ls) lIsDone (lStep_err_done P.ls)
+        bc.l ms A e bc.dl.closed n hw hnd hA hjo
+      have hsp : mc.dl.q = (ms.take j).map Item.msg ++ ((ms.drop j).map Item.msg ++ [.junk e]) := by
+        rw [hq, ← List.append_assoc, ← List.map_append, List.take_append_drop]
+      have hlen : (ms.take j).length = j := by simp; omega
+      have hiter := stepL_iter P (ms.take j) mc ((ms.drop j).map Item.msg ++ [.junk e]) hndm hsp
+        (by rw [← hrel.hl]; exact hnb)
+      rw [hlen] at hiter
+      rcases hcase with hp | ⟨hjl, hnd2, X, hp⟩
+      · refine ⟨List.replicate j .stepL, ?_⟩
+        rw [hiter, hb', hp]
+        exact {
+          hs := hrel.hs
+          hd := hrel.hd
+          hl := by simp [hrel.hl]
+          hdl := Or.inr (by rw [bytesOf_append, bytesOf_msgs, bytesOf_junk])
+          hdlc := hrel.hdlc
+          hld := by simp [hrel.hld, bytesOf_append, bytesOf_msgs, hrel.hl]
+          hldc := by simp [hrel.hldc, hrel.hl] }
+      · refine ⟨List.replicate j .stepL ++ [.stepL], ?_⟩
+        rw [foldl_append_moves, hiter, hb', hp]
+        have hdrop : ms.drop j = [] := by rw [hjl]; simp
+        simp only [List.foldl_cons, List.foldl_nil, step]
+        rw [stepL_item P _ (.junk e) [] (by
+              intro r
+              simp only
+              rw [← hrel.hl]
+              exact not_done_l _ hnd2 r)
+            (by simp [hdrop])]
+        have hnf := lFailed_of_not_done _ hnd2
+        have hnf' : lFailed (runSteps (lStep P.ls) mc.l (List.take j (List.map RdEv.msg ms))).fst = false := by
+          rw [← List.map_take, ← hrel.hl]; exact hnf
+        exact {
+          hs := hrel.hs
+          hd := hrel.hd
+          hl := by simp [hrel.hl, itemEv]
+          hdl := Or.inl (by simp [itemEv, lStep_err_done])
+          hdlc := hrel.hdlc
+          hld := by simp [hrel.hld, bytesOf_append, bytesOf_msgs, hrel.hl, wireOfAll_append, itemEv]
+          hldc := by simp [hrel.hldc, hrel.hl, hnf', itemEv] }
+
+/-! ### the dialer side with optimistic data -/
+
+/-- the items the dialer emits while consuming `ms` (messages, and the optimistic data at the lazy exit) -/
+def runEmit (P : Params) : DSt → List Msg → List Item
+  | _, [] => []
+  | s, m :: ms =>
+    dEmit P s (dStep P.lazy s (.msg m)).1 (dStep P.lazy s (.msg m)).2 ++
+      runEmit P (dStep P.lazy s (.msg m)).1 ms
+
+theorem notDone_weaken (P : Params) (s0 : DSt) : ∀ (ms : List Msg) (s : DSt),
+    NotDoneBefore (dStep P.lazy) (dStop s0) s ms → NotDoneBefore (dStep P.lazy) dIsDone s ms := by
+  intro ms
+  induction ms with
+  | nil => intro s _; trivial
+  | cons m ms ih =>
+    intro s h
+    refine ⟨?_, ih _ h.2⟩
+    have := h.1
+    simp [dStop] at this
+    exact this.1
+
+/-- `j` consecutive dialer moves, in general -/
+theorem stepD_iterA (P : Params) : ∀ (ms : List Msg) (c : Cfg) (tail : List Item),
+    c.started = true → dIsDone c.d = false →
+    c.ld.q = ms.map Item.msg ++ tail → NotDoneBefore (dStep P.lazy) dIsDone c.d ms →
+    (List.replicate ms.length Move.stepD).foldl (step P) c =
+      { c with d := (runSteps (dStep P.lazy) c.d (ms.map RdEv.msg)).1,
+               ld := ⟨tail, c.ld.closed⟩,
+               dl := ⟨c.dl.q ++ runEmit P c.d ms,
+                      c.dl.closed || dFailed (runSteps (dStep P.lazy) c.d (ms.map RdEv.msg)).1⟩ } := by
+  intro ms
+  induction ms with
+  | nil =>
+    intro c tail _ hnf hq _
+    simp only [List.length_nil, List.replicate_zero, List.foldl_nil, List.map_nil, runSteps,
+      List.append_nil, dFailed_of_not_done _ hnf, Bool.or_false, runEmit]
+    simp at hq
+    cases c with
+    | mk st d l dl ld =>
+      cases ld with
+      | mk q cl => simp at hq; subst hq; rfl
+  | cons m ms ih =>
+    intro c tail hst hnf hq hnd
+    obtain ⟨h0, hrest⟩ := hnd
+    have hitem := stepD_item P c (.msg m) (ms.map Item.msg ++ tail) hst (not_done_d _ h0) (by simpa using hq)
+    simp only [List.length_cons, List.replicate_succ, List.foldl_cons, step]
+    cases ms with
+    | nil => rw [hitem]; simp [runSteps, itemEv, runEmit]
+    | cons m2 ms2 =>
+      have hnf2 : dIsDone (dStep P.lazy c.d (itemEv (.msg m))).1 = false := by
+        simpa [itemEv] using hrest.1
+      have hst' : (stepD P c).started = true := by rw [hitem]; exact hst
+      have hd' : (stepD P c).d = (dStep P.lazy c.d (itemEv (.msg m))).1 := by rw [hitem]
+      have hq' : (stepD P c).ld.q = (m2 :: ms2).map Item.msg ++ tail := by rw [hitem]
+      rw [ih (stepD P c) tail hst' (by rw [hd']; exact hnf2) hq'
+        (by rw [hd']; simpa [itemEv] using hrest)]
+      rw [hitem]
+      simp only [itemEv, List.map_cons, runSteps, List.append_assoc]
+      have := dFailed_of_not_done _ hnf2
+      simp only [itemEv] at this
+      simp [this, runEmit]
+
+theorem isExp_step (lazy : Bool) (s : DSt) (ev : RdEv) (h : isExpecting s = true)
+    (hnd : dIsDone (dStep lazy s ev).1 = false) : isExpecting (dStep lazy s ev).1 = true := by
+  cases s with
+  | done r => simp [isExpecting] at h
+  | await c t => simp [isExpecting] at h
+  | expecting c x =>
+    cases ev with
+    | panic w => simp [dStep, dIsDone] at hnd
+    | eof => simp [dStep, dIsDone] at hnd
+    | err e => simp [dStep, dIsDone] at hnd
+    | msg m =>
+      cases m with
+      | header => cases x <;> simp_all [dStep, dIsDone, isExpecting]
+      | proto p => simp only [dStep] at hnd ⊢; split at hnd <;> simp [dIsDone] at hnd
+      | na => simp [dStep, dIsDone] at hnd
+      | ls => simp [dStep, dIsDone] at hnd
+      | protos ps => simp [dStep, dIsDone] at hnd
+
+/-- the bytes of what the dialer emits in one poll: the wire image of its messages, then — if
+this poll ended with the lazy exit — the optimistic data -/
+theorem emit_bytes (P : Params) (A : Bytes) (s0 : DSt)
+    (hJA : bytesOf A (junkItems P) = A) :
+    ∀ (ms : List Msg) (s : DSt), isExpecting s = isExpecting s0 →
+      NotDoneBefore (dStep P.lazy) (dStop s0) s ms →
+      bytesOf A (runEmit P s ms) =
+        wireOfAll (runSteps (dStep P.lazy) s (ms.map RdEv.msg)).2 ++
+          (if isExpecting (runSteps (dStep P.lazy) s (ms.map RdEv.msg)).1 && !isExpecting s0 then A else []) := by
+  intro ms
+  induction ms with
+  | nil =>
+    intro s hs _
+    simp [runEmit, runSteps, bytesOf, wireOfAll, hs]
+  | cons m ms ih =>
+    intro s hs hnd
+    obtain ⟨h0, hrest⟩ := hnd
+    simp only [runEmit, List.map_cons, runSteps, bytesOf_append, dEmit, bytesOf_msgs, wireOfAll_append]
+    cases ms with
+    | nil =>
+      simp only [runEmit, bytesOf, List.flatMap_nil, List.append_nil, List.map_nil, runSteps,
+        wireOfAll, hs]
+      split
+      · simp [hJA.symm ▸ hJA, bytesOf] ; exact hJA
+      · simp
+    | cons m2 ms2 =>
+      have hns := hrest.1
+      simp only [dStop, Bool.or_eq_false_iff] at hns
+      obtain ⟨hnd1, hne1⟩ := hns
+      have hexp : isExpecting (dStep P.lazy s (.msg m)).1 = isExpecting s0 := by
+        cases hx : isExpecting s0 with
+        | true => exact isExp_step P.lazy s _ (by rw [hs, hx]) hnd1
+        | false =>
+          rw [hx] at hne1
+          simpa using hne1
+      have hnoj : (isExpecting (dStep P.lazy s (.msg m)).1 && !isExpecting s) = false := by
+        rw [hs, hexp]; cases isExpecting s0 <;> rfl
+      rw [ih _ hexp hrest]
+      simp only [hnoj, Bool.false_eq_true, ↓reduceIte, bytesOf, List.flatMap_nil, List.append_nil,
+        List.map_cons, runSteps, wireOfAll_append, List.append_assoc]
+
+theorem dStop_self (s : DSt) : dStop s s = dIsDone s := by
+  simp [dStop]
+
+/-- a byte-level dialer poll (which may take the lazy exit and write the optimistic data) is
+matched by message-level dialer moves -/
+theorem refine_DA (P : Params) (A : Bytes) (bc : BCfg) (mc : Cfg) (n : Nat) (hrel : RelA A bc mc)
+    (hJA : bytesOf A (junkItems P) = A)
+    (hld : ∃ ms : List Msg, mc.ld.q = ms.map Item.msg ∧ ∀ m ∈ ms, wireOk m) :
+    ∃ ex : List Move, RelA A (bStepDA P A n bc) (ex.foldl (step P) mc) := by
+  unfold bStepDA
+  by_cases hst : bc.started = true
+  · have hst' : mc.started = true := by rw [← hrel.hs]; exact hst
+    simp only [hst, Bool.not_true, Bool.false_eq_true, ↓reduceIte]
+    by_cases hdone : dIsDone bc.d = true
+    · exact ⟨[], by simpa [hdone] using hrel⟩
+    · have hnd : dIsDone bc.d = false := by simpa using hdone
+      have hnds : dStop bc.d bc.d = false := by rw [dStop_self]; exact hnd
+      simp only [hnd, Bool.false_eq_true, ↓reduceIte]
+      obtain ⟨ms, hq, hw⟩ := hld
+      have hb : bc.ld.bytes = wireOfAll ms := by rw [hrel.hld, hq, bytesOf_msgs]
+      obtain ⟨j, hjle, hnb, hcase⟩ := pollBytes_spec (dStep P.lazy) (dStop bc.d) bc.d ms bc.ld.closed n hw hnds
+      have hsplit : mc.ld.q = (ms.take j).map Item.msg ++ (ms.drop j).map Item.msg := by
+        rw [hq, ← List.map_append, List.take_append_drop]
+      have hlen : (ms.take j).length = j := by simp; omega
+      have hiter := stepD_iterA P (ms.take j) mc ((ms.drop j).map Item.msg) hst'
+        (by rw [← hrel.hd]; exact hnd) hsplit
+        (by rw [← hrel.hd]; exact notDone_weaken P bc.d _ _ hnb)
+      rw [hlen] at hiter
+      have hemit := emit_bytes P A bc.d hJA (ms.take j) bc.d rfl hnb
+      rcases hcase with hp | ⟨hjl, hcl, hnd2, hp⟩
+      · refine ⟨List.replicate j .stepD, ?_⟩
+        rw [hiter, hb, hp]
+        exact {
+          hs := by simp [hst']
+          hd := by simp [hrel.hd]
+          hl := hrel.hl
+          hld := (bytesOf_msgs A (ms.drop j)).symm
+          hldc := hrel.hldc
+          hdl := by
+            rcases hrel.hdl with h | h
+            · exact Or.inl h
+            · right
+              simp only
+              rw [bytesOf_append, ← hrel.hd, hemit, h, List.append_assoc]
+          hdlc := by simp [hrel.hdlc, hrel.hd] }
+      · refine ⟨List.replicate j .stepD ++ [.stepD], ?_⟩
+        rw [foldl_append_moves, hiter, hb, hp]
+        have hdrop : ms.drop j = [] := by rw [hjl]; simp
+        have hnd2' : dIsDone (runSteps (dStep P.lazy) bc.d ((ms.take j).map RdEv.msg)).1 = false := by
+          have := hnd2; simp [dStop] at this; exact this.1
+        have hnexp : (isExpecting (runSteps (dStep P.lazy) bc.d ((ms.take j).map RdEv.msg)).1 &&
+            !isExpecting bc.d) = false := by
+          have := hnd2; simp [dStop] at this
+          cases h1 : isExpecting (runSteps (dStep P.lazy) bc.d ((ms.take j).map RdEv.msg)).1 with
+          | false => rfl
+          | true => simp [this.2 h1]
+        simp only [List.foldl_cons, List.foldl_nil, step]
+        rw [stepD_eof P _ (by simp [hst']) (by
+              intro r
+              simp only
+              rw [← hrel.hd]
+              exact not_done_d _ hnd2' r)
+            (by simp [hdrop]) (by simp [← hrel.hldc, hcl])]
+        have hnf := dFailed_of_not_done _ hnd2'
+        have hnf' : dFailed (runSteps (dStep P.lazy) mc.d (List.take j (List.map RdEv.msg ms))).fst = false := by
+          rw [← List.map_take, ← hrel.hd]; exact hnf
+        -- after EOF the dialer is done, so no lazy exit happens in this last step
+        have hdoneEof : ∀ s, dIsDone (dStep P.lazy s .eof).1 = true := by
+          intro s; cases s <;> simp [dStep, dIsDone]
+        have hnoexp : ∀ s, isExpecting (dStep P.lazy s .eof).1 = false := by
+          intro s; cases s <;> simp [dStep, isExpecting]
+        rw [hnexp, Bool.false_eq_true] at hemit
+        simp only [↓reduceIte, List.append_nil] at hemit
+        exact {
+          hs := by simp [hst']
+          hd := by simp [hrel.hd]
+          hl := hrel.hl
+          hld := by simp [hdrop, bytesOf]
+          hldc := hrel.hldc
+          hdl := by
+            rcases hrel.hdl with h | h
+            · exact Or.inl h
+            · right
+              simp only [hnoexp, Bool.false_and, Bool.false_eq_true, ↓reduceIte, List.append_nil]
+              rw [bytesOf_append, bytesOf_append, ← hrel.hd, hemit, h, wireOfAll_append]
+              simp [dEmit, hnoexp, bytesOf_msgs, hrel.hd, List.map_take]
+          hdlc := by simp [hrel.hdlc, hrel.hd, hnf'] }
+  · -- the very first poll: `SendHeader` + first `SendProtocol` (possibly the lazy exit at once)
+    have hst0 : bc.started = false := by simpa using hst
+    have hst' : mc.started = false := by rw [← hrel.hs]; exact hst0
+    refine ⟨[.stepD], ?_⟩
+    simp only [hst0, Bool.not_false, ↓reduceIte, List.foldl_cons, List.foldl_nil, step, stepD, hst']
+    exact {
+      hs := rfl
+      hd := rfl
+      hl := hrel.hl
+      hld := hrel.hld
+      hldc := hrel.hldc
+      hdl := by
+        rcases hrel.hdl with h | h
+        · exact Or.inl h
+        · right
+          simp only
+          rw [bytesOf_append, h, dEmit, bytesOf_append, bytesOf_msgs, List.append_assoc]
+          congr 2
+          cases isExpecting (dStart P.lazy P.ds).1 <;> simp [isExpecting, hJA, bytesOf]
+      hdlc := by simp [hrel.hdlc] }
 
 end C14
